@@ -2,6 +2,7 @@ package checks
 
 import (
 	"fmt"
+	"reflect"
 	"time"
 
 	astits "github.com/asticode/go-astits"
@@ -524,12 +525,26 @@ func RetainedSlicesStreams(seed int64) (pesFull, zoo []byte) {
 		if len(sec) > 4096 {
 			panic("descriptor zoo exceeds the EIT section limit")
 		}
+		// the same descriptors again in a later table, every byte string in them with bit 5 of each byte flipped ("eng" ->
+		// "ENG", "prov" -> "PROV"): near-identical contents that a cache or an interning table keyed on a lossy
+		// digest of the bytes takes for the earlier ones
+		eit2 := &astits.EITData{ServiceID: 1, TransportStreamID: 2, OriginalNetworkID: 3, LastTableID: 0x4e}
+		for _, ev := range eit.Events {
+			e2 := *ev
+			e2.Descriptors = nil
+			for _, d := range ev.Descriptors {
+				e2.Descriptors = append(e2.Descriptors, flipCaseBit(d))
+			}
+			eit2.Events = append(eit2.Events, &e2)
+		}
+		sec2 := SecEIT(eit2, ref.SecHdr{CNI: true, Version: 1})
 		nit := modelNIT(2)
 		sdt := modelSDT(4)
 		tot := modelTOT()
 		cc := []uint8{0, 5, 9, 13}
 		lists := [][]*ref.Pkt{
-			append(Packetize(PSIUnit(0x12, 0, [][]byte{sec}, nil), nil, &cc[0], true), Packetize(PSIUnit(0x12, 0, [][]byte{SecEIT(modelEIT(2), ref.SecHdr{CNI: true})}, nil), nil, &cc[0], true)...),
+			append(append(Packetize(PSIUnit(0x12, 0, [][]byte{sec}, nil), nil, &cc[0], true), Packetize(PSIUnit(0x12, 0, [][]byte{SecEIT(modelEIT(2), ref.SecHdr{CNI: true})}, nil), nil, &cc[0], true)...),
+				Packetize(PSIUnit(0x12, 0, [][]byte{sec2}, nil), nil, &cc[0], true)...),
 			Packetize(PSIUnit(0x10, 0, [][]byte{SecNIT(nit, ref.SecHdr{CNI: true})}, nil), nil, &cc[1], true),
 			Packetize(PSIUnit(0x11, 0, [][]byte{SecSDT(sdt, ref.SecHdr{CNI: true})}, nil), nil, &cc[2], true),
 			Packetize(PSIUnit(0x14, 0, [][]byte{SecTOT(tot)}, nil), nil, &cc[3], true),
@@ -598,4 +613,44 @@ func SyncLookalikeStream(seed int64) *Stream {
 	exp[0x0047] = []ExpData{u0.Exp[0], u1.Exp[0]}
 	exp[0x1047] = u2.Exp
 	return &Stream{Name: "sync-lookalikes", Pkts: ps, Bytes: EncodePkts(ps), Exp: exp}
+}
+
+// flipCaseBit returns a deep copy of a descriptor in which every byte of every byte string has bit 5 flipped.
+func flipCaseBit(d *astits.Descriptor) *astits.Descriptor {
+	var walk func(v reflect.Value) reflect.Value
+	walk = func(v reflect.Value) reflect.Value {
+		switch v.Kind() {
+		case reflect.Ptr:
+			if v.IsNil() {
+				return v
+			}
+			n := reflect.New(v.Type().Elem())
+			n.Elem().Set(walk(v.Elem()))
+			return n
+		case reflect.Struct:
+			n := reflect.New(v.Type()).Elem()
+			n.Set(v)
+			for i := 0; i < v.NumField(); i++ {
+				if n.Field(i).CanSet() {
+					n.Field(i).Set(walk(v.Field(i)))
+				}
+			}
+			return n
+		case reflect.Slice:
+			if v.IsNil() {
+				return v
+			}
+			n := reflect.MakeSlice(v.Type(), v.Len(), v.Len())
+			for i := 0; i < v.Len(); i++ {
+				if v.Type().Elem().Kind() == reflect.Uint8 {
+					n.Index(i).SetUint(v.Index(i).Uint() ^ 0x20)
+				} else {
+					n.Index(i).Set(walk(v.Index(i)))
+				}
+			}
+			return n
+		}
+		return v
+	}
+	return walk(reflect.ValueOf(d)).Interface().(*astits.Descriptor)
 }
